@@ -96,7 +96,15 @@ func (o *sessionTracker) RemoteLogin(rul common.RemoteUserLogin) error {
 			u.setRemoteUserLoginInfo(rul)
 
 			found = true
+			sessionEnded := u.hasCachedSessionEnd()
 			writeErr = u.writeAndClearCache(o.eventWriter)
+			if sessionEnded {
+				// The session ended before its login arrived. It is
+				// over once its cached events have been written, so
+				// remove it like auditEventWithSession does. (This is
+				// safe: Iterate holds the lock.)
+				o.sessIDsToUsers.DeleteUnsafe(asi)
+			}
 			// stop iteration
 			return false
 		}
@@ -350,6 +358,18 @@ func (o *user) setRemoteUserLoginInfo(login common.RemoteUserLogin) {
 // hasRemoteUserLoginInfo checks if there is a remote user login present for the user.
 func (o *user) hasRemoteUserLoginInfo() bool {
 	return o.hasRUL
+}
+
+// hasCachedSessionEnd returns true if the cached events contain the event
+// that marks the end of the session (refer to auditEventWithSession).
+func (o *user) hasCachedSessionEnd() bool {
+	for _, event := range o.cached {
+		if event.Type == auparse.AUDIT_CRED_DISP {
+			return true
+		}
+	}
+
+	return false
 }
 
 // toAuditEvent takes an array of coalesced events and returns and audit event
